@@ -200,16 +200,19 @@ impl<'tcx> Cx<'tcx> {
                 }).or(blk.expr)?;
                 if let hir::ExprKind::Match(_, inner_arms, hir::MatchSource::ForLoopDesugar) = &first.kind {
                     for a in inner_arms.iter() {
-                        if let hir::PatKind::TupleStruct(_, pats, _) = &a.pat.kind {
-                            if pats.len() == 1 {
-                                return Some(
-                                    J::obj()
-                                        .set("k", J::s("For"))
-                                        .set("pat", self.pat(&pats[0]))
-                                        .set("iter", self.expr(head))
-                                        .set("body", self.expr(a.body)),
-                                );
-                            }
+                        let item_pat: Option<&'tcx hir::Pat<'tcx>> = match &a.pat.kind {
+                            hir::PatKind::TupleStruct(_, pats, _) if pats.len() == 1 => Some(&pats[0]),
+                            hir::PatKind::Struct(_, fields, _) if fields.len() == 1 => Some(fields[0].pat),
+                            _ => None,
+                        };
+                        if let Some(ip) = item_pat {
+                            return Some(
+                                J::obj()
+                                    .set("k", J::s("For"))
+                                    .set("pat", self.pat(ip))
+                                    .set("iter", self.expr(head))
+                                    .set("body", self.expr(a.body)),
+                            );
                         }
                     }
                 }
